@@ -296,6 +296,15 @@ TCParse ==
                                THEN 1 ELSE 1)
   /\ l' = l + 1 /\ UNCHANGED << objs, limit, nunspec >>
 
+\* href_from_file(in): r (C++)
+THrefFromFile ==
+  /\ IsEvent("hff")
+  /\ LET exp == HrefFromFile(Ev["in"])
+     IN ndiag' = ndiag + (IF exp.unspec \/ exp.s = Ev.r THEN 0
+                          ELSE IF Emit([l |-> l, who |-> "a", kind |-> "href-from-file", props |-> <<"C01">>,
+                                        diff |-> [href |-> [exp |-> exp.s, got |-> Ev.r]]]) THEN 1 ELSE 1)
+  /\ l' = l + 1 /\ UNCHANGED << objs, limit, nunspec >>
+
 \* a setter made while another thread flips the limit between L1 and L2: the resulting href must be the
 \* old one or the Standard's result, a call that reports failure must have left the object unchanged, a
 \* result that fits under both limits (with an argument that fits) must have been applied, and a result
@@ -327,7 +336,7 @@ TCrashed ==
   /\ l' = l + 1 /\ UNCHANGED << objs, limit, nunspec >>
 
 Next == TReset \/ TLimit \/ TParse \/ TSet \/ TCopy \/ TObserve \/ TReparse \/ TCanParse
-        \/ TVec \/ TSetVec \/ TCrashed \/ TCLimits \/ TCParse \/ TCSet
+        \/ TVec \/ TSetVec \/ TCrashed \/ TCLimits \/ TCParse \/ TCSet \/ THrefFromFile
 
 Spec == Init /\ [][Next]_vars
 
